@@ -171,8 +171,8 @@ def run(tier, seed):
         obs_runs = [("obs1", (2, 2, [1, 2], [1], [0, 1] if not quick else [0], 1, 0, False)),
                     ("clone", (2, 2, [1, 2], [1], [0], 2, 3 if quick else 5, True))]      # two observers and a graph copy
         if not quick:
-            obs_runs.append(("obs2", (2, 2, [1, 2], [1], [0, 1], 2, 5, False)))
-            obs_runs.append(("obs1-large", (3, 3, [1, 2, 3], [1, 2], [0, 1], 1, 4, False)))
+            obs_runs.append(("obs2", (2, 2, [1, 2], [1], [0, 1], 2, 4, False)))
+            obs_runs.append(("obs1-large", (3, 3, [1, 2, 3], [1, 2], [0, 1], 1, 3, False)))
         for name, c in obs_runs:
             cfg = os.path.join(wd, name + ".cfg")
             _obs_cfg(cfg, *c)
